@@ -356,12 +356,25 @@ class ComputeLikelihood:
 
     def requires(c, gridded_data, apprx_rate_density, expected_cond_count, n_obs):
         g = gridded_data
-        i = z3.Int('i!rq')
-        return [z3.ForAll([i], z3.Implies(z3.And(0 <= i, i < g.n), g.f((i,)) >= 0), patterns=[g.f((i,))])]
+        return [c.forall(0, to_z3(g.shape[0]), lambda i: to_real(g.f((i,))) >= 0)]
+
+    def accepts(c, gridded_data, apprx_rate_density, expected_cond_count, n_obs):
+        return isinstance(gridded_data, Arr) and isinstance(apprx_rate_density, Arr) and gridded_data.ndim == 1 and apprx_rate_density.ndim == 1
+
+    def result(c, gridded_data, apprx_rate_density, expected_cond_count, n_obs):
+        """modular use: the normalised score is NaN exactly in the undefined cases (its own contract), a real otherwise"""
+        g = gridded_data
+        total = _rs(lambda i: g.f((i,)), to_z3(g.shape[0]))
+        undefined = z3.Or(total == 0, to_real(n_obs) == 0, to_real(expected_cond_count) == 0)
+        plh = c.ctx.fresh_real('pseudo_likelihood')
+        if c.ctx.branch(undefined):
+            return (plh, NAN)
+        return (plh, c.ctx.fresh_real('normalised_likelihood'))
 
     def ensures(c, r, gridded_data, apprx_rate_density, expected_cond_count, n_obs):
         g, rate, E = gridded_data, apprx_rate_density, expected_cond_count
-        n = g.n
+        n = to_z3(g.shape[0])
+        n_obs, E = to_real(n_obs), to_real(E)
         yield 'returns a pair', z3.BoolVal(isinstance(r, tuple) and len(r) == 2)
         plh, lnorm = r
         total = _rs(lambda i: g.f((i,)), n)
